@@ -41,7 +41,7 @@ chk("C18", "venum",
     "Trusted: x/net/html as the browser's parser. Only single-field injections with the stated payload set; Okta pages not reachable without an Okta backend.",
     "DESIGN.md 3 C18")
 
-chk("C11", "venum",
+chk("C11", "venum+vsched",
     "exhaustive enumeration of prefix lengths x base addresses x boundary peers x peer forms, and of structurally corrupted extensions, on the real library functions and the real mint/refresh/certgen handlers; oracle is uint32 arithmetic",
     "All prefix lengths 0-32 x 7 base addresses x boundary peers (network, broadcast, one below/above, middle, single-bit flips) in IPv4, IPv4-mapped, IPv6, zoned, port-less and textual forms, plus disjoint/nested/duplicate/adjacent/64-block lists, are minted with the real code (library and /v1/getRoleRequestingCert), read back, and used to authenticate /v1/refreshRoleRequestingCert and /certgen/ with realistic verified chains from every peer; the refreshed certificate must carry the same identity and blocks and be obtainable only from inside. ~370 corrupted extension values (bit lengths 0-48/64/128, wrong family, 300 blocks, every truncation and three flips per byte) in certificates signed by the role CA and by the operator CA must be refused without panic and never admit a peer no well-formed block covers.",
     "Trusted: crypto/x509 verification; encoding/asn1 for building test extensions. Only IPv4 blocks exist in the code; IPv6 blocks are out of scope.",
@@ -135,24 +135,24 @@ chk("C09", "venum+vsched",
 ADDENDA = {
  "C01": " Added after seeding: multi-credential requests (7 primary credentials x every cookie shape, both cookie orders), role certificates from a loopback peer with forwarding headers, IP-restricted certificates issued by the operator's client CA and for netblocks not ending on an octet boundary, an unsorted multi-entry key deny list, and the decision product behind configuration FILES loaded with the real loadVerifyConfigFile.",
  "C02": " Added after seeding: deployments with the user-name filter (names typed as name@Domain).",
- "C03": " Added after seeding: IP-restricted certificates issued by the operator's own client CA (inside, aged, outside).",
- "C04": " Added after seeding: a 14th consumer, the level upgrade reached under client-certificate authentication; history-dependent violations (state carried between requests) are confirmed by re-running their enumeration shard.",
- "C05": " Added after seeding: requests carrying two session cookies of different users in either order, a next-step TOTP code, a primary store that answers reads but refuses writes; the canonical state records which code was spent.",
- "C06": " Added after seeding: look-alike foreign origins (host.evil, evil-host, host@evil) as Origin and Referer, loopback-peer forwarding headers, non-octet netblocks, operator-CA IP certificates, unsorted deny list.",
+ "C03": " Added after seeding: IP-restricted certificates issued by the operator's own client CA (inside, aged, outside), and refreshes of such certificates with lifetimes from 1 h to 20 years.",
+ "C04": " Added after seeding: a 14th consumer, the level upgrade reached under client-certificate authentication; history-dependent violations (state carried between requests) are confirmed by re-running their enumeration shard; two sibling servers without configured host_identity that trust each other's keys.",
+ "C05": " Added after seeding: requests carrying two session cookies of different users in either order, a next-step TOTP code, a primary store that answers reads but refuses writes; the canonical state records which code was spent; case-twin users with normalisation disabled; the real clean-up pass as an operation.",
+ "C06": " Added after seeding: look-alike foreign origins (host.evil, evil-host, host@evil) as Origin and Referer, loopback-peer forwarding headers, non-octet netblocks, operator-CA IP certificates, unsorted deny list; a session token in a response must name the admitted identity.",
  "C07": " Added after seeding: second directory server down, case-twin accounts on every password entry point, disable_password_cache; the canonical state includes what the real rows say (subject, expiries, which candidate passwords the stored hash verifies).",
- "C08": " Added after seeding: the canonical state of the admin-cache search includes the cache entry's real remaining lifetime.",
- "C09": " Added after seeding: part (d), every subset and order of {own RSA CA key, own Ed25519 CA key, foreign key} pre-listed as known public keys.",
- "C10": " Added after seeding: OpenSSH-certificate and sk-* blobs under re-tagged lines; every corrupted client-certificate address extension (C11 catalogue) signed by both trusted CAs on the certificate-taking routes.",
- "C11": " Added after seeding: corrupted-extension handler probes under three certificate-method configurations.",
+ "C08": " Added after seeding: the canonical state of the admin-cache search includes the cache entry's real remaining lifetime; case-twin accounts of the administrator with normalisation disabled.",
+ "C09": " Added after seeding: part (d), every subset and order of {own RSA CA key, own Ed25519 CA key, foreign key} pre-listed as known public keys; a deployment whose primary slot holds an Ed25519 key (never unsealable).",
+ "C10": " Added after seeding: OpenSSH-certificate and sk-* blobs under re-tagged lines; every corrupted client-certificate address extension (C11 catalogue) signed by both trusted CAs on the certificate-taking routes; 18 truncated / odd Authorization header values on every route.",
+ "C11": " Added after seeding: corrupted-extension handler probes under three certificate-method configurations; part C11S (controlled scheduler, engine vsched): simultaneous mint / refresh requests with scheduling points inside lib/certgen.",
  "C12": " Added after seeding: near-miss secrets (whitespace-only, trailing blank, one character short, case-folded).",
- "C13": " Added after seeding: label-boundary host family, double-encoded path segments and encoded delimiters; the emitted Location must carry no parent-directory segment and no client-supplied query.",
- "C14": " Added after seeding: part C14S (controlled scheduler, engine vsched): simultaneous TOTP and password guesses as threads, all interleavings with <= 2 (thorough 3) preemptions; part (c): configured burst/rate through a generated configuration file and the real loadVerifyConfigFile.",
- "C15": " Added after seeding: outage ending inside the request (reads fail, writes succeed), fail-fast primary with the production read timeout, self-service bootstrap-OTP deployments with a recording mail sender.",
- "C16": " Added after seeding: two unseal injections racing each other and a reader of the CA material.",
- "C17": " Added after seeding: tails that force URL re-serialisation, 9 non-printable Unicode runes.",
- "C18": " Added after seeding: authority of an absolute-form request line, Host header, sessions whose user name is the payload.",
+ "C13": " Added after seeding: label-boundary host family, double-encoded path segments and encoded delimiters; the emitted Location must carry no parent-directory segment and no client-supplied query; the client configurations written into a configuration file and loaded with the real loader.",
+ "C14": " Added after seeding: part C14S (controlled scheduler, engine vsched): simultaneous TOTP and password guesses as threads, all interleavings with <= 2 (thorough 3) preemptions; part (c): configured burst/rate through a generated configuration file and the real loadVerifyConfigFile; the limiter's own mutex is a scheduling point in C14S.",
+ "C15": " Added after seeding: outage ending inside the request (reads fail, writes succeed), fail-fast primary with the production read timeout, self-service bootstrap-OTP deployments with a recording mail sender; an error injected at every SQL operation of every write to the primary.",
+ "C16": " Added after seeding: two unseal injections racing each other and a reader of the CA material; one pass of the real background clean-up loop as a thread against all request kinds.",
+ "C17": " Added after seeding: tails that force URL re-serialisation, 9 non-printable Unicode runes, absolute URLs that start with this server's own origin text.",
+ "C18": " Added after seeding: authority of an absolute-form request line, Host header, sessions whose user name is the payload; payloads that need no quote or bracket; the repository's own customisation templates (the failed-login page renders).",
  "C19": " Added after seeding: an agent already holding foreign identities (one of an unparsable key type); leak detection over every key the client holds.",
- "C20": " Added after seeding: differences between the real event loop and the recorder's functions are violations located in eventLoop.",
+ "C20": " Added after seeding: differences between the real event loop and the recorder's functions are violations located in eventLoop; watchdog on every publication, mixed certificate/login long runs against stalled subscribers.",
 }
 
 NOT_YET = {
@@ -193,7 +193,7 @@ def main():
             {"name": "verifgen", "path": "tools/verifgen", "serves_properties": sorted(CHECKS), "kind_free_text": "AST rewriter: virtual-clock seam, authutil environment seams, scheduler shims/yield points/access probes, route-table extraction from main(); emits a go build overlay"},
             {"name": "vfeng", "path": "engine/vfeng", "serves_properties": sorted(CHECKS), "kind_free_text": "check frame: process sharding, result merge, known-findings matching, replay confirmation, evidence writer"},
             {"name": "vclock", "path": "engine/vclock", "serves_properties": sorted(CHECKS), "kind_free_text": "virtual clock with deterministic timers"},
-            {"name": "vsched", "path": "engine/vsched", "serves_properties": [p for p in sorted(CHECKS) if p in ("C09", "C14", "C16", "C20")], "kind_free_text": "controlled cooperative scheduler, preemption-bounded DFS over schedules, vector-clock race analysis"},
+            {"name": "vsched", "path": "engine/vsched", "serves_properties": [p for p in sorted(CHECKS) if p in ("C09", "C11", "C14", "C16", "C20")], "kind_free_text": "controlled cooperative scheduler, preemption-bounded DFS over schedules, vector-clock race analysis"},
         ],
         "checks": checks,
         "not_applicable": na,
